@@ -39,6 +39,10 @@ class InotifyBuffer(BaseThread):
         """
         return self._queue.get()
 
+    def remove_watches_under(self, path: bytes) -> None:
+        """Stops watching a directory (and its sub-directories) that was moved out of the tree."""
+        self._inotify.remove_watches_under(path)
+
     def on_thread_stop(self) -> None:
         self._inotify.close()
         self._queue.close()
